@@ -169,7 +169,7 @@ func VerifC04WorkConn() {
 		}
 		had = len(ctl.workConnCh)
 	}
-	err := svr.RegisterWorkConn(wc, m)
+	err := svr.RegisterWorkConn(wc, m, false)
 	pooled := len(ctl.workConnCh) - had
 	if err == nil {
 		zzverif.Assert(m.RunID == "r1" && ver.workOK && plug.outcome <= 1, "C04.work.pooled-only-if-known-and-verified")
@@ -387,7 +387,7 @@ func VerifC04LoginHistory() {
 		if ctl, ok := svr.ctlManager.GetByID(login.RunID); ok && err == nil && !exempt {
 			ver.workOK = false
 			wc := &zzConn{name: "w"}
-			zzverif.Assert(svr.RegisterWorkConn(wc, &msg.NewWorkConn{RunID: login.RunID}) != nil, "C04.history.unverified-workconn-refused")
+			zzverif.Assert(svr.RegisterWorkConn(wc, &msg.NewWorkConn{RunID: login.RunID}, false) != nil, "C04.history.unverified-workconn-refused")
 			_ = ctl
 		}
 	}
